@@ -123,6 +123,7 @@ pub fn doc_strategy(tier: Tier, allow_hermes: bool) -> BoxedStrategy<DocModel> {
                 fb_sources,
                 style,
                 unknown_keys,
+                mappings_override: None,
             },
         )
         .boxed()
